@@ -3,7 +3,8 @@ import io, os, shutil, tempfile
 import core, gen, objs
 from adapters import c01
 
-FILE_NAMES = ["a.sm", "a.ssc", "A.SM", "b.SsC", "a.txt", "a.sm.bak", "noext"]
+# the last three: names that consist of the extension alone (what is left of a name after its last dot decides, not a "stem")
+FILE_NAMES = ["a.sm", "a.ssc", "A.SM", "b.SsC", "a.txt", "a.sm.bak", "noext", ".ssc", ".SM", "..sm", "a.b.ssc"]
 
 
 def universal(text):
